@@ -514,7 +514,7 @@ func runMerge(res *Result, drv *Driver, seed uint64, n int, tier string, only in
 		}
 		// index loader: one for all tables of the case (70%) or one per table
 		loaders := make([]int, nt)
-		pickLoader := func() int { return []int{mgLdSlice, mgLdSlice, mgLdSlice, mgLdSkipList, mgLdSkipList, mgLdMap, mgLdDisk, mgLdDisk, mgLdDisk}[r.Intn(9)] }
+		pickLoader := func() int { return []int{mgLdSlice, mgLdSlice, mgLdSlice, mgLdSlice, mgLdSkipList, mgLdSkipList, mgLdMap, mgLdDisk, mgLdDisk}[r.Intn(9)] }
 		{
 			one := pickLoader()
 			mixed := r.Chance(30)
